@@ -381,7 +381,7 @@ def check_case(case: dict[str, Any], col: common.Collector) -> None:
     variants = case.get("variants")
     if variants is None:
         asg = c07.random_assignment(spec, rng, 0)
-        asg = {k: [t for t in v if t[0] in ("stored", "vtag", "axis", "redn", "inlined")]
+        asg = {k: [t for t in v if t[0] in ("stored", "vtag", "axis", "redn", "inlined", "subst")]
                for k, v in asg.items()}
         asg = {k: v for k, v in asg.items() if v}
         variants = [
